@@ -272,8 +272,7 @@ LOOP_NONE = ("__CPROVER_assigns(i, self->no_affinity_.v_bit)\n"
              "__CPROVER_loop_invariant(i <= self->num_threads_ && ((g_k < i && g_k_punum == g_b) ==> self->no_affinity_.v_bit))")
 NONE_LIFTS = {
     "get_pu_num": GET_PU_NUM,
-    "none_branch": Lift(AD, r'if \(affinity_description == "none"\)', fragment_end=r"get_pu_num\(i\)\);\s*\}", rules=[
-        Sub(r'affinity_description == "none"', "vx_description_is_none", 1),
+    "none_branch": Lift(AD, r'if \(affinity_description == "none"\)', rules=[
         Sub(r"threads::detail::resize\(no_affinity_,\s*([^;]+)\);", r"bitmask_resize(&self->no_affinity_, \1);", 1),
         Sub(r"threads::detail::set\(no_affinity_,\s*([^;]+)\);", r"bitmask_set(&self->no_affinity_, \1);", 1),
         Sub(r"\bget_pu_num\(", "get_pu_num(self, ", 1),
@@ -332,7 +331,7 @@ UNITS = [
          funcs=[PAO + ": decode_compact_distribution, check_num_threads, pu_in_process_mask"], min_obligations=40, timeout=300, no_replay=DEV),
     Unit("decode_distribution", "dispatch.c", enforce="decode_distribution",
          lifts={"dist_enum": Lift(PAO_HPP, r"enum distribution_type", fragment_end=r"\};", rules=[]),
-                "body": Lift(PAO, r"void decode_distribution\(", rules=[Call(r"\baffinities\.resize", "maskvec_resize(affinities, {0})", 1)])},
+                "body": Lift(PAO, r"void decode_distribution\(", rules=[Call(r"\baffinities\.resize", "maskvec_resize(affinities, {0})", None)])},
          funcs=[PAO + ": decode_distribution"], min_obligations=10),
 ] + NONE_UNITS + [
     Unit("pu_in_process_mask", "decoders.c", defines=["U_PIM"], enforce="pu_in_process_mask", lifts=dict(HELPERS),
